@@ -424,6 +424,13 @@ class Parser:
             return True
 
         if ttype == "left_cbracket":
+            condition = (
+                self.__curcommand.get_type() == "control"
+                and self.__curcommand.accept_children
+                and self.__curcommand.iscomplete()
+            )
+            if not condition:
+                return False
             self.__push_expected_bracket("right_cbracket", b"}")
             self.__cstate = None
             return True
